@@ -422,7 +422,7 @@ def make_case(seed, size='small', features=None, gens=None):
     g = Gen(seed, size, features)
     problem, matrices, f = g.problem()
     cfg = g.config(gens)
-    return {"id": "s%d" % seed, "seed": seed, "problem": problem, "matrices": matrices, "config": cfg,
+    return {"id": "s%d%s" % (seed, size[0]), "seed": seed, "problem": problem, "matrices": matrices, "config": cfg,
             "features": sorted(k for k, v in f.items() if v), "unreach_mode": g.unreach_mode, "travel_only": bool(f.get('travel_only')), "metric": g.metric}
 
 
@@ -450,9 +450,12 @@ def derive_relations(case, solution, rnd):
         return None
     problem = copy.deepcopy(case["problem"])
     jobs = {j["id"]: j for j in problem["plan"]["jobs"]}
-    def simple(jid):  # E1203 (applied by the code to every relation type): single place and at most one window per task
+    def simple(jid):  # E1203 (applied by the code to every relation type): single place and at most one window per task;
+        # single-task jobs only ("relation with jobs which have multiple pickups or deliveries places are not yet supported")
         j = jobs.get(jid)
         if j is None: return True
+        if sum(len(j.get(k, [])) for k in ("pickups", "deliveries", "replacements", "services")) != 1:
+            return False
         for k in ("pickups", "deliveries", "replacements", "services"):
             for t in j.get(k, []):
                 if len(t["places"]) > 1 or len(t["places"][0].get("times") or []) > 1:
